@@ -122,6 +122,12 @@ def run_case(case, obs) -> None:  # noqa: C901, PLR0915
             h2_before = m.ref_h2(q, p)
             s.h2_flow(st, t)
             obs.count("flow_calls_checked")
+            # the component's energy as the system itself computes it (h2 method; evaluated only after the flow ran)
+            own_before, own_after = float(s.h2(m.state(q, p))), float(s.h2(st))
+            e_own = abs(own_after - own_before) / max(1.0, abs(own_before))
+            obs.maxi("relerr.h2_flow.own_energy", e_own)
+            if e_own > 1e-8 * (1 + abs(t)):
+                viol("h2_flow:own-energy", f"the system's own h2 changes from {own_before:.12g} to {own_after:.12g} along h2_flow(t={t:.4g})")
             z = sla.expm(t * gen) @ np.concatenate([q, p])
             tol = 1e-8 * (1 + abs(t))
             e = max(rel(st.pos, z[:dim]), rel(st.mom, z[dim:]))
